@@ -79,4 +79,17 @@ PLAN = {
         min_nontrivial=dict(quick=500, thorough=5000),
         runs=both("", dict(cases=5000, size=100, budget=45), dict(cases=150000, size=150, budget=900)),
     ),
+    "C07": dict(
+        rule=("table of 67 (public function, corrupted argument) probes x boundary value {-1, count, count+1, number of internal "
+              "columns, INT_MAX, INT_MIN; unknown/empty/duplicate names; illegal sense / bound selector / parameter id or value; "
+              "size-mismatched or malformed basis} x position of the bad entry in a list x lifecycle state {loaded, parameters set, "
+              "solved by exact/primal/dual, edited after solve} x random base LPs and build routes; each probe runs in a forked child: "
+              "snapshot (full dump through the query API, basis arrays, status, every solution accessor, parameters), the call must "
+              "return non-zero/NULL, the snapshot must be unchanged, ASan/UBSan must stay silent, and the object must still solve and "
+              "free. Non-trivial = every probe; distinct = distinct (function, boundary, position, state) cell."),
+        technique="table-driven PBT of invalid calls with state-snapshot oracle under ASan/UBSan",
+        min_nontrivial=dict(quick=800, thorough=3000),
+        runs=[dict(variant="", flavour="asan", quick=dict(cases=16000, size=60, shards=16, budget=40),
+                   thorough=dict(cases=200000, size=100, shards=16, budget=600))],
+    ),
 }
